@@ -87,7 +87,7 @@ def build(jobs=16):
         lock.close()
 
 
-MODEL_FILES = ['Prelude', 'Cov', 'Map', 'Spec', 'Exec', 'Packed', 'Ops', 'Spec2', 'Exec2']
+MODEL_FILES = ['Prelude', 'Cov', 'Map', 'Spec', 'Exec', 'Packed', 'Moc', 'Ops', 'Spec2', 'Exec2']
 
 
 def check_property_file(pid):
@@ -144,7 +144,14 @@ def _run_model_shard(histories):
         for op in h:
             lines.append(enc_groups(op))
     inp = '\n'.join(lines) + '\n'
-    p = subprocess.run([RUNNER], input=inp, stdout=subprocess.PIPE, stderr=subprocess.PIPE, text=True)
+    def _big_stack():
+        import resource
+        try:
+            resource.setrlimit(resource.RLIMIT_STACK, (resource.RLIM_INFINITY, resource.RLIM_INFINITY))
+        except Exception:
+            pass
+    p = subprocess.run([RUNNER], input=inp, stdout=subprocess.PIPE, stderr=subprocess.PIPE, text=True,
+                       preexec_fn=_big_stack)
     if p.returncode != 0:
         raise RuntimeError('model runner failed: ' + p.stderr[-2000:])
     out = p.stdout.split('\n')
